@@ -1277,11 +1277,35 @@ func (fv *FuncVC) binop(op token.Token, X, Y ssa.Value, rt types.Type, pos token
 				return fv.wrap(app("*", a, p2), rt)
 			}
 		}
-		// masking with a constant 2^k - 1 is exact for non-negative values: x & (2^k-1) = x mod 2^k
+		// masking with a constant 2^k - 1 is exact: x & (2^k-1) = x mod 2^k (two's complement: also for negative x,
+		// with the non-negative mathematical mod)
 		if c, ok := Y.(*ssa.Const); ok && c.Value != nil && op == token.AND && isInt(t) {
 			if m, ok2 := constant.Int64Val(constant.ToInt(c.Value)); ok2 && m > 0 && (m&(m+1)) == 0 {
-				if lo, _, okr := intRange(t); okr && lo == "0" {
-					return app("mod", a, fmt.Sprintf("%d", m+1))
+				return app("mod", a, fmt.Sprintf("%d", m+1))
+			}
+		}
+		// a single constant bit 2^k on an unsigned operand: x & 2^k = 2^k * bit k of x; x | 2^k = x + 2^k unless the bit is set
+		if c, ok := Y.(*ssa.Const); ok && c.Value != nil && (op == token.AND || op == token.OR) && isInt(t) {
+			if lo, _, okr := intRange(t); okr && lo == "0" {
+				if bv, exact := constant.Uint64Val(constant.ToInt(c.Value)); exact && bv != 0 && bv&(bv-1) == 0 {
+					p2 := new(big.Int).SetUint64(bv).String()
+					bit := app("mod", app("div", a, p2), "2")
+					if op == token.AND {
+						return app("*", bit, p2)
+					}
+					return app("ite", eq(bit, "0"), app("+", a, p2), a)
+				}
+			}
+		}
+		// (x << k) | y with 0 <= y < 2^k: the bits are disjoint, so it is the sum
+		if op == token.OR && isInt(t) {
+			if sh, ok := X.(*ssa.BinOp); ok && sh.Op == token.SHL {
+				if c, ok := sh.Y.(*ssa.Const); ok && c.Value != nil {
+					if k, ok2 := constant.Int64Val(constant.ToInt(c.Value)); ok2 && k > 0 && k < 63 {
+						p2 := new(big.Int).Lsh(big.NewInt(1), uint(k)).String()
+						suffix := ""
+						return app("ite", and(app("<=", "0", b), app("<", b, p2)), app("+", a, b), fv.e.bitopT(op.String(), a, b, suffix))
+					}
 				}
 			}
 		}
